@@ -293,6 +293,16 @@ func TestC02Pinned(t *testing.T) {
 			pinned(t, "C02", "C02/roundtrip", c, runC02)
 		}
 	}
+	// legacy, more than one 8 MiB block, every entry point and reader kind
+	for _, wconc := range []int{1, 4} {
+		for _, mode := range []string{"write", "readfrom"} {
+			for _, rc := range []rcfg{{Conc: 4, WriteTo: true}, {Conc: 1, Sizes: []int{4095}}, {Conc: 2, Sizes: []int{9 << 20}}} {
+				c := c02Case{Opts: wopts{BS: 4, Conc: wconc, Legacy: true}, Data: gen.Data{Segs: []gen.Seg{{K: "text", N: 16<<20 + 77, S: 3, P: 5}}},
+					Del: delivery{Mode: mode, Chunks: []int{5 << 20}, Flush: []bool{false}}, R: rc}
+				pinned(t, "C02", "C02/roundtrip", c, runC02)
+			}
+		}
+	}
 	// 4 MiB blocks
 	c := c02Case{Opts: wopts{BS: 7, ContentSum: true, Conc: 2}, Data: gen.Data{Segs: []gen.Seg{{K: "text", N: 4<<20 + 1, S: 5, P: 4}}},
 		Del: delivery{Mode: "write", Chunks: []int{4 << 20}, Flush: []bool{false}}, R: rcfg{Conc: 2, WriteTo: true}}
